@@ -305,6 +305,13 @@ def check_c08(out, tier):
     out.add_l1("MC_Delivery/MC_C08.cfg", r)
     for inv in r["violated"]:
         out.violation("L1.%s" % inv, {"model": "MC_Delivery"}, r["out"][-1500:])
+    # literal typing by channel: the whole (lexical class x declared kind) table through every local channel, quoted and shorthand
+    r = tlc.check_model("MC_LiteralTyping", "MC_LiteralTyping.cfg", workers=4, timeout=300)
+    out.add_l1("MC_LiteralTyping/MC_LiteralTyping.cfg", r)
+    for inv in r["violated"]:
+        out.violation("L1.typing.%s" % inv, {"model": "MC_LiteralTyping"}, r["out"][-1500:])
+    from harness import typing_leg
+    typing_leg.leg(out, "C08", typing_leg.LOCAL_TEXT + ["rdflib"])
     k = pipeline.SIZES[tier]
     sc = Scratch()
     srv, port = start_server(sc.dir)
@@ -492,6 +499,13 @@ def check_c15(out, tier):
     out.add_l1("MC_EndpointInd/MC_C15_inductive.cfg", r)
     for inv in r["violated"]:
         out.violation("L1.inductive.%s" % inv, {"model": "MC_EndpointInd"}, r["out"][-1500:])
+    # literal typing by channel: the whole (lexical class x declared kind) table through the endpoint result reader
+    r = tlc.check_model("MC_LiteralTyping", "MC_LiteralTyping.cfg", workers=4, timeout=300)
+    out.add_l1("MC_LiteralTyping/MC_LiteralTyping.cfg", r)
+    for inv in r["violated"]:
+        out.violation("L1.typing.%s" % inv, {"model": "MC_LiteralTyping"}, r["out"][-1500:])
+    from harness import typing_leg
+    typing_leg.leg(out, "C15", ["endpoint"])
     k = pipeline.SIZES[tier]
     payloads, groups = [], []
     for i in range(90 * k):
@@ -669,10 +683,20 @@ def check_c19(out, tier):
         c["targetsFile"] = True
         c["endpoint"] = i % 4 != 3
         cases.append(c)
+    for i in range(6 * k):        # the graph parsed by rdflib (a Turtle / RDF-XML text, a Graph object): a recorded finding
+        T = gen.general_graph(rnd, bnodes=False, max_nodes=6)
+        c = gen.case("c19r%d" % i, T, **gen.switches(rnd))
+        c["channel"] = ["turtle", "rdflib", "xml" if xml_expressible(T) else "turtle"][i % 3]
+        cases.append(c)
     for i in range(6 * k):        # selectors that answer a node several times, local and on the endpoint
         c = gen.tied_focus_case(rnd, "c19t%d" % i)
         c["endpoint"] = i % 3 != 0
         cases.append(c)
+    for p in common.load_pinned("C19"):
+        if "case" in p:
+            pc = dict(p["case"])
+            pc["id"] = "pin:" + p["file"]
+            cases.append(pc)
     seeds = list(range(6)) if tier == "quick" else list(range(32))
     work = tempfile.mkdtemp(prefix="shexer-verif-c19-")
     try:
@@ -699,7 +723,7 @@ def check_c19(out, tier):
     traces = []
     for c in cases:
         obs = [{"seed": s, "status": per_seed[s][c["id"]]["status"], "sha": per_seed[s][c["id"]]["sha"]} for s in seeds]
-        traces.append({"id": c["id"], "runs": obs})
+        traces.append({"id": c["id"], "runs": obs, "channel": c.get("channel", "nt")})
     verdicts, stats = tlc.validate_batch("Trace_Seeds", "Trace_Seeds.cfg", traces, procs=2)
     out.traces += len(cases) * len(seeds)
     out.evaluations += len(cases)
